@@ -6,29 +6,35 @@ import shutil
 
 import vlib
 
-INVS = ["C19_NoUB", "C11_AddReturns", "C11_Content", "C11_NoDup"]
+INVS = ["C19_NoUB", "C11_AddReturns", "C11_Content", "C11_NoDup", "C19_IndexOK"]
 
 
 def table_models(chk, tier):
     work = vlib.scratch("tblmc")
     maxops = 5 if tier == "quick" else 6
     cfg = vlib.make_cfg(work / "MCBlockTable.cfg", spec="MCSpec",
-                        constants={"MaxOps": maxops, "Vals": "{0, 1, 2}", "Emit": "FALSE", "TBug": '"none"'},
+                        constants={"MaxOps": maxops, "Vals": "{0, 1, 2}", "Emit": "FALSE", "TBug": '"none"', "WithAddValue": "TRUE"},
                         invariants=INVS, properties=["C11_Stable"])
     res, verdict = vlib.model_check("MCBlockTable", cfg, workers=vlib.NCPU, timeout=2400, xmx="16g")
     chk.add_model(f"MCBlockTable(MaxOps={maxops}, 3 slots, 3 values)", res, verdict)
     cfg = vlib.make_cfg(work / "MCBlockTable_bug.cfg", spec="MCSpec",
-                        constants={"MaxOps": 5, "Vals": "{0, 1}", "Emit": "FALSE", "TBug": '"shallow_copy"'},
+                        constants={"MaxOps": 5, "Vals": "{0, 1}", "Emit": "FALSE", "TBug": '"shallow_copy"', "WithAddValue": "FALSE"},
                         invariants=INVS, properties=["C11_Stable"])
     res, verdict = vlib.model_check("MCBlockTable", cfg, workers=4, timeout=600)
     chk.add_model("MCBlockTable[TBug=shallow_copy] (self-test, must fail)", res, verdict, expect="violated")
+    cfg = vlib.make_cfg(work / "MCBlockTable_bug2.cfg", spec="MCSpec",
+                        constants={"MaxOps": 5, "Vals": "{0, 1}", "Emit": "FALSE", "TBug": '"copy_counts_keys"', "WithAddValue": "TRUE"},
+                        invariants=INVS, properties=["C11_Stable"])
+    res, verdict = vlib.model_check("MCBlockTable", cfg, workers=4, timeout=600)
+    chk.add_model("MCBlockTable[TBug=copy_counts_keys] (self-test, must fail)", res, verdict, expect="violated")
     shutil.rmtree(work, ignore_errors=True)
 
 
-def generated(chk, maxops, vals, limit=None, need_copy=None):
+def generated(chk, maxops, vals, limit=None, need_copy=None, addv=False):
     work = vlib.scratch("tblgen")
     cfg = vlib.make_cfg(work / "Gen.cfg", spec="MCSpec",
-                        constants={"MaxOps": maxops, "Vals": vals, "Emit": "TRUE", "TBug": '"none"'},
+                        constants={"MaxOps": maxops, "Vals": vals, "Emit": "TRUE", "TBug": '"none"',
+                                   "WithAddValue": "TRUE" if addv else "FALSE"},
                         invariants=["EmitDone"])
     res = vlib.run_tlc("MCBlockTable", cfg, workers=8, timeout=1500, xmx="8g")
     if not vlib.tlc_ok(res):
